@@ -53,6 +53,21 @@ theorem cast_cA' : ((cA : ℕ) : ZMod q) = -1 := cast_cA
 theorem cast_cD' : ((cD : ℕ) : ZMod q) = 3021 := by rw [cD_eq]; norm_num
 theorem cast_cK' : ((cK : ℕ) : ZMod q) = 6042 := by rw [cK_eq]; norm_num
 
+/-- comparisons of canonical values are equalities in `ZMod q` -/
+theorem val_beq_val (a b : ZMod q) : (a.val == b.val) = decide (a = b) := by
+  rw [Bool.eq_iff_iff]; simp [ZMod.val_injective q |>.eq_iff]
+
+theorem val_beq_zero (a : ZMod q) : (a.val == 0) = decide (a = 0) := by
+  rw [Bool.eq_iff_iff]; simp [ZMod.val_eq_zero]
+
+/-- a Boolean result that is an equality test in the field: both sides become `decide (P = 0)`-style propositions, and
+the propositions are shown equivalent by a linear combination (so `x1*y2 == y1*x2` and `y2*x1 - y1*x2 == 0` agree) -/
+macro "formula_booleq" : tactic => `(tactic| (
+  simp only [fmul_val, fadd_val, fsub_val, fneg_val, fsq_val, ZMod.natCast_zmod_val, Nat.cast_ofNat, Nat.cast_one,
+    cast_cA', cast_cD', cast_cK', val_beq_val, val_beq_zero]
+  rw [decide_eq_decide]
+  constructor <;> intro h <;> first | linear_combination h | linear_combination -h | linear_combination (exp := 1) h))
+
 /-- one step: close by syntactic equality, or split the outermost square-root call / parse / conditional -/
 macro "formula_step" sr:ident : tactic => `(tactic| first
   | with_reducible rfl
